@@ -10,6 +10,17 @@ use std::sync::OnceLock;
 
 pub struct C12;
 
+/// This check is cheap: the quick tier already runs the full alphabet (what used to be the
+/// thorough tier); `deep` marks the extras that only the thorough tier adds.
+#[allow(dead_code)]
+fn full(_t: Tier) -> bool {
+    true
+}
+#[allow(dead_code)]
+fn deep(t: Tier) -> bool {
+    t == Tier::Thorough
+}
+
 #[derive(Clone, Debug)]
 struct Case {
     class: String,
@@ -45,10 +56,10 @@ fn request(path: &str, version: &str, conn: Option<&str>) -> Vec<u8> {
 fn cases(tier: Tier) -> &'static Vec<Case> {
     static Q: OnceLock<Vec<Case>> = OnceLock::new();
     static T: OnceLock<Vec<Case>> = OnceLock::new();
-    let cell = if tier == Tier::Quick { &Q } else { &T };
+    let cell = if !full(tier) { &Q } else { &T };
     cell.get_or_init(|| {
         let mut v = Vec::new();
-        let max_len = if tier == Tier::Thorough { 3 } else { 2 };
+        let max_len = if full(tier) { 3 } else { 2 };
         let tails: Vec<(&str, Vec<u8>)> = vec![
             ("nothing", vec![]),
             ("request", get("/after")),
@@ -61,7 +72,7 @@ fn cases(tier: Tier) -> &'static Vec<Case> {
                         for (tl, tail) in &tails {
                             for half_close in [false, true] {
                                 for deferred in [false, true] {
-                                    if tier == Tier::Quick && deferred && half_close {
+                                    if !full(tier) && deferred && half_close {
                                         continue;
                                     }
                                     let mut bytes = Vec::new();
@@ -153,7 +164,7 @@ impl Check for C12 {
     fn rule(&self, tier: Tier) -> String {
         format!(
             "version {{1.0, 1.1}} x Connection header {:?} at every position of a pipeline of 1..{} requests x following bytes {{nothing, a further complete request, garbage}} x client half-closing afterwards or not x application answering immediately or on a later signal; {} conversations; token-based reference model: requests after the connection-ending one are never delivered, the client sees exactly the answers of the received requests then end-of-stream; otherwise the connection stays open; after a client half-close everything received is answered, then end-of-stream",
-            CONN_VALUES, if tier == Tier::Thorough { 3 } else { 2 }, cases(tier).len()
+            CONN_VALUES, if full(tier) { 3 } else { 2 }, cases(tier).len()
         )
     }
     fn assumptions(&self) -> Vec<String> {
